@@ -128,7 +128,7 @@ FinalVerdict(rec) ==
             THEN IF rec.res.t = "Unser" THEN [v |-> "SKIP"]
                  ELSE IF ~IdentityTreeOK(rec.tree, R, rec.res)
                  THEN LET d == FirstDiff(Norm(ZeroIds(Rename(rec.tree, R))), Norm(rec.res)) IN
-                      [v |-> "tree", ev |-> d.why, who |-> d.who, pos |-> 0, at |-> l]
+                      [v |-> "tree", ev |-> d.why, who |-> d.who, pos |-> d.pos, at |-> l]
                  ELSE LET p == Pre(rec.tree)
                           xs == ExitEvents(rec)
                           und == Cached(fam) /\ HasTwins(rec.tree)
